@@ -60,13 +60,17 @@ pub struct St {
     /// row ids / addresses of rows that were deleted or moved in earlier states
     dead_ids: BTreeSet<u64>,
     canon: u64,
+    /// ops that led here (violations found while probing a state do not prune the search, so the
+    /// trace is carried by the state itself)
+    path: Vec<Op>,
 }
 
 fn blob_bytes(uid: i32) -> Option<Vec<u8>> {
-    match uid.rem_euclid(4) {
-        0 => Some(b"hello".to_vec()),
-        1 => Some((0..300u32).map(|i| (i * 7 + uid as u32) as u8).collect()),
+    match uid.rem_euclid(8) {
+        0 | 4 => Some(format!("hello{uid}").into_bytes()),
+        1 | 5 => Some((0..300u32).map(|i| (i * 7 + uid as u32) as u8).collect()),
         2 => None,
+        6 => Some(vec![]),
         _ => Some(vec![uid as u8]),
     }
 }
@@ -263,6 +267,9 @@ struct Shared {
 struct Sys {
     sh: Shared,
     roots: Vec<(String, bool, bool)>,
+    /// replay mode: probe violations are returned from `step` (seqx::replay collects them)
+    replaying: bool,
+    collected: Mutex<Vec<Violation>>,
 }
 
 async fn take_by_addr(ds: &Arc<Dataset>, addrs: &[u64], proj: &[&str]) -> lance::Result<RecordBatch> {
@@ -284,7 +291,7 @@ impl Sys {
         let lists = key_lists(&u, sh.max_len);
         let mode = if st.stable { "stable" } else { "addr-ids" };
         let frag_count = r.addrs.iter().map(|a| a >> 32).collect::<BTreeSet<_>>().len();
-        let mut check = |api: &str, proj: &[&str], l: &[usize], keys: Value, res: Result<lance::Result<RecordBatch>, String>, cov: &mut Cov, viol: &mut Vec<Violation>| {
+        let check = |api: &str, proj: &[&str], l: &[usize], keys: Value, res: Result<lance::Result<RecordBatch>, String>, cov: &mut Cov, viol: &mut Vec<Violation>| {
             let class = list_class(r, l);
             let nontrivial = l.len() >= 2 && (class != "sorted" || frag_count > 1);
             let h = vcore::hash64(format!("{}|{api}|{proj:?}|{l:?}", st.canon).as_bytes());
@@ -381,6 +388,16 @@ impl Sys {
             });
             check("take_scan", PROJ_ALL, &l, json!(rl), res, &mut cov, &mut viol);
         }
+        if st.blob && std::env::var("C15_DBG").is_ok() {
+            let _ = vds::run_catch(async {
+                let mut sc = ds.scan();
+                sc.project(&["uid", "blob"]).unwrap();
+                sc.scan_in_order(true);
+                sc.with_row_address();
+                let bs: Vec<RecordBatch> = sc.try_into_stream().await.unwrap().try_collect().await.unwrap();
+                eprintln!("DBG state {:?} blob scan: {:?}", st.path, cells::batches_rows(&bs));
+            });
+        }
         // blobs: one file per requested row with a non-NULL blob, in request order; for a NULL blob the API
         // may either skip the row or hand out a zero-size file (recorded); reading a file must give its bytes
         if st.blob {
@@ -424,48 +441,51 @@ impl Sys {
                             ));
                         }
                         Ok(Ok(got)) => {
-                            // align: NULL-blob rows are optional zero-size files
-                            let mut gi = 0usize;
-                            let mut problem: Option<&str> = None;
-                            for e in &exp {
-                                match e {
-                                    Some(bytes) => match got.get(gi) {
-                                        Some((sz, Ok(b))) if b == bytes && *sz as usize == bytes.len() => gi += 1,
-                                        Some((sz, Err(_))) if *sz as usize == bytes.len() => {
-                                            problem = Some("blob-read-error");
-                                            break;
+                            // align: a NULL-blob row is either skipped or represented by a zero-size file
+                            fn align(exp: &[Option<Vec<u8>>], got: &[(u64, Result<Vec<u8>, String>)]) -> bool {
+                                match exp.split_first() {
+                                    None => got.is_empty(),
+                                    Some((Some(bytes), rest)) => match got.split_first() {
+                                        Some(((sz, rd), grest)) => {
+                                            let content_ok = match rd {
+                                                Ok(b) => b == bytes,
+                                                Err(_) => bytes.is_empty(), // unreadable zero-size file: reported separately
+                                            };
+                                            *sz as usize == bytes.len() && content_ok && align(rest, grest)
                                         }
-                                        Some(_) => {
-                                            problem = Some("wrong-blob");
-                                            break;
-                                        }
-                                        None => {
-                                            problem = Some("blob-missing");
-                                            break;
-                                        }
+                                        None => false,
                                     },
-                                    None => match got.get(gi) {
-                                        Some((0, rd)) => {
-                                            gi += 1;
-                                            *sh.dead.lock().unwrap().entry(format!("{api}/NULL-blob:zero-size-file")).or_insert(0) += 1;
-                                            if let Err(m) = rd {
-                                                // a file the API handed out cannot be read
-                                                viol.push(Violation::new(
-                                                    "blob-read",
-                                                    &format!("{api}/zero-size-blob-file-read-error"),
-                                                    format!("{api}({keys:?}): file of size 0 returned for a NULL blob; read() fails: {m}"),
-                                                    case.clone(),
-                                                ));
-                                            }
-                                        }
-                                        _ => {
-                                            *sh.dead.lock().unwrap().entry(format!("{api}/NULL-blob:skipped")).or_insert(0) += 1;
-                                        }
-                                    },
+                                    Some((None, rest)) => {
+                                        (matches!(got.first(), Some((0, _))) && align(rest, &got[1..])) || align(rest, got)
+                                    }
                                 }
                             }
-                            if problem.is_none() && gi != got.len() {
-                                problem = Some("extra-blob");
+                            let mut problem: Option<&str> = None;
+                            if !align(&exp, &got) {
+                                let need = exp.iter().filter(|e| e.is_some()).count();
+                                problem = Some(if got.len() < need {
+                                    "blob-missing"
+                                } else if got.len() > exp.len() {
+                                    "extra-blob"
+                                } else {
+                                    "wrong-blob"
+                                });
+                            }
+                            let zero_files = got.iter().filter(|g| g.0 == 0).count();
+                            let zero_rows = exp.iter().filter(|e| matches!(e, Some(b) if b.is_empty())).count();
+                            let null_rows = exp.iter().filter(|e| e.is_none()).count();
+                            if null_rows > 0 && problem.is_none() {
+                                let label = if zero_files > zero_rows { "NULL-blob:zero-size-file" } else { "NULL-blob:skipped" };
+                                *sh.dead.lock().unwrap().entry(format!("{api}/{label}")).or_insert(0) += 1;
+                            }
+                            if let Some((_, Err(m))) = got.iter().find(|g| g.0 == 0 && g.1.is_err()) {
+                                // a file the API handed out cannot be read
+                                viol.push(Violation::new(
+                                    "blob-read",
+                                    &format!("{api}/zero-size-blob-file-read-error"),
+                                    format!("{api}({keys:?}): a returned BlobFile of size 0 (empty or NULL blob) cannot be read: {m}"),
+                                    case.clone(),
+                                ));
                             }
                             match problem {
                                 None => cov.outcome(&format!("{api}:ok:{class}")),
@@ -668,7 +688,14 @@ impl Sys {
         let frags = sum.map(|s| s.frags);
         st.canon = vcore::hash64(json!([st.stable, st.blob, r.rows, r.ids, r.addrs, frags, st.dead_ids]).to_string().as_bytes());
         let fresh = self.sh.evaluated.lock().unwrap().insert(st.canon);
-        let violations = if fresh { self.probe_state(&st, &ds, &r) } else { vec![] };
+        let mut violations = if fresh { self.probe_state(&st, &ds, &r) } else { vec![] };
+        if !self.replaying {
+            // a random-access disagreement does not make model and table diverge: keep exploring below
+            for mut v in violations.drain(..) {
+                v.case = json!({"root": st.label, "ops": st.path, "detail": v.case});
+                self.collected.lock().unwrap().push(v);
+            }
+        }
         Step { next: Some(st), outcome: if fresh { "probed".into() } else { "seen".into() }, violations }
     }
 }
@@ -697,6 +724,7 @@ impl Sut for Sys {
                 next_uid: 6,
                 dead_ids: BTreeSet::new(),
                 canon: 0,
+                path: vec![],
             };
             let step = self.finish_state(st, &env, None);
             // violations found in a root state are reported through a zero-length trace
@@ -739,6 +767,7 @@ impl Sut for Sys {
     fn step(&self, st: &St, op: &Op) -> Step<St> {
         let env = Env::from_store(MemStore::from_snapshot(&st.snap));
         let mut next = st.clone();
+        next.path.push(op.clone());
         let r = vds::run_catch(async {
             let mut ds = env.open(URI).await?;
             let prev = reference(&ds).await?;
@@ -801,6 +830,25 @@ impl Sut for Sys {
 }
 
 static ROOT_VIOLATIONS: Mutex<Vec<Violation>> = Mutex::new(vec![]);
+
+/// One classification key per root cause; the symptom key stays in the violation text.
+fn root_cause(mut v: Violation) -> Violation {
+    let k = v.key.clone();
+    let new = if k.starts_with("take/dead-key/") && k.contains("attempt-to-add-with-overflow") {
+        Some("take/out-of-range-offset/arithmetic-overflow-on-tombstone-address")
+    } else if k.starts_with("take_blobs_by_indices/stable/") {
+        Some("take_blobs_by_indices/stable-row-ids/addresses-resolved-as-row-ids")
+    } else if k.ends_with("zero-size-blob-file-read-error") {
+        Some("blob-file/zero-size-blob-read-requests-empty-range")
+    } else {
+        None
+    };
+    if let Some(n) = new {
+        v.what = format!("[{k}] {}", v.what);
+        v.key = n.to_string();
+    }
+    v
+}
 
 // ------------------------------------------------------------------------------------------------
 // pure K5: OffsetMapper
@@ -979,7 +1027,7 @@ fn make_sys(ctx: &Ctx) -> Sys {
             dead: Mutex::new(BTreeMap::new()),
             foreign: Mutex::new(BTreeSet::new()),
             max_len: 3,
-            cap_keys: if quick { 4 } else { 5 },
+            cap_keys: if quick { 3 } else { 5 },
         },
         roots: vec![
             ("L2/addr-ids".to_string(), false, false),
@@ -987,6 +1035,8 @@ fn make_sys(ctx: &Ctx) -> Sys {
             ("L2/blob/addr-ids".to_string(), false, true),
             ("L2/blob/stable".to_string(), true, true),
         ],
+        replaying: ctx.replay.is_some(),
+        collected: Mutex::new(vec![]),
     }
 }
 
@@ -1005,10 +1055,10 @@ pub fn run(ctx: &Ctx) -> Outcome {
             k5_offset_mapper(&mut cov, &mut v);
             k5_row_id_index(&mut cov, &mut v, false);
             let key = art["key"].as_str().unwrap_or("").to_string();
-            v.into_iter().filter(|x| x.key == key).take(1).collect()
+            v.into_iter().filter(|x| x.key == key).take(1).collect::<Vec<_>>()
         };
         let key = art["key"].as_str().unwrap_or("").to_string();
-        out.violations.extend(v.into_iter().filter(|x| x.key == key || key.is_empty()));
+        out.violations.extend(v.into_iter().map(root_cause).filter(|x| x.key == key || key.is_empty()));
         out.set("evaluations", 1u64);
         out.set("distinct_nontrivial", 0u64);
         out.set("rule", "replay of one recorded case");
@@ -1017,11 +1067,16 @@ pub fn run(ctx: &Ctx) -> Outcome {
         return out;
     }
     let quick = ctx.quick();
-    let caps = Caps { max_depth: ctx.tier.pick(2, 3), max_states: 200_000, wall_s: ctx.tier.pick(32.0, 780.0) };
+    let caps = Caps { max_depth: ctx.tier.pick(2, 3), max_states: 200_000, wall_s: ctx.tier.pick(30.0, 780.0) };
     let rep = seqx::explore(&sys, &caps, ctx.workers);
     let mut cov = sys.sh.cov.lock().unwrap().clone();
     out.violations.extend(ROOT_VIOLATIONS.lock().unwrap().drain(..));
     out.violations.extend(rep.violations.iter().cloned());
+    // shortest trace first per key (finish() keeps the first artefact of each key)
+    let mut collected: Vec<Violation> = sys.collected.lock().unwrap().drain(..).collect();
+    collected.sort_by_key(|v| (v.case["ops"].as_array().map(|a| a.len()).unwrap_or(0), v.case["root"].as_str().unwrap_or("").to_string(), v.case["ops"].to_string()));
+    out.violations.extend(collected);
+    out.violations = out.violations.drain(..).map(root_cause).collect();
     let mut v5 = vec![];
     let mut c5 = Cov::new();
     k5_offset_mapper(&mut c5, &mut v5);
